@@ -20,3 +20,16 @@ func NewVerifClient(rt http.RoundTripper, hook DiscardHook) *CustomHTTPClient {
 	}
 	return c
 }
+
+// VerifWait, when set, stands in for Wait: a real sync.WaitGroup that blocks is invisible to the
+// controlled scheduler (the harness waits on Size() in virtual time instead). Nil: the real Wait.
+var VerifWait func(wg *WaitGroupWithCount)
+
+// Wait shadows the method promoted from the embedded sync.WaitGroup.
+func (wg *WaitGroupWithCount) Wait() {
+	if VerifWait != nil {
+		VerifWait(wg)
+		return
+	}
+	wg.WaitGroup.Wait()
+}
